@@ -469,4 +469,148 @@ theorem execSimple_quiet (tx : Tx) (fr : Frame) (h0 : tx.target ≠ tx.caller)
   · exact Nat.le_refl _
   · rw [upd_other _ _ _ _ h0.symm, upd_same]; omega
 
+theorem transactWith_deposit (tx : Tx) (s : Slots) (pre : St) (exec : St → St) (fr : Frame)
+    (hdep : tx.isDeposit = true) (hvg : validateInitialGas tx = none)
+    (hegp : effectiveGasPrice tx = 0) (hdf : dataFee' tx = 0)
+    (hmint : pre.bal tx.caller + tx.mint.getD 0 < W)
+    (hx : (exec (minted tx pre)).bal tx.caller < W) :
+    transactWith tx s pre exec fr = output tx pre (exec (minted tx pre)) fr.cls (finalGas tx fr) := by
+  unfold transactWith validateEnv validateTxAgainstState
+  simp only [hdep, if_true, hvg]
+  exact runTx_deposit tx pre none exec fr hdep hegp hdf hmint hx
+
+/-- a deposit that does not pass `validate_initial_tx_gas` is answered with the error; `end` is not reached -/
+theorem transactWith_deposit_preverify (tx : Tx) (s : Slots) (pre : St) (exec : St → St) (fr : Frame) (e : Err)
+    (hdep : tx.isDeposit = true) (hvg : validateInitialGas tx = some e) :
+    transactWith tx s pre exec fr = .err e := by
+  unfold transactWith validateEnv
+  simp only [hdep, if_true, hvg]
+
+theorem execSimple_fail (tx : Tx) (st : St) (fr : Frame) (h : fr.cls ≠ .ok) :
+    (execSimple tx st fr).bal = st.bal := by
+  rcases execSimple_cases tx st fr with h1 | ⟨_, h2, _⟩
+  · exact h1
+  · exact absurd h2 h
+
+theorem execSimple_nonce (tx : Tx) (st : St) (fr : Frame) :
+    (execSimple tx st fr).nonce =
+      if tx.isCreate = true ∧ ¬ st.bal tx.caller < tx.value ∧ ¬ st.nonce + 1 ≥ U64 then st.nonce + 1 else st.nonce := by
+  unfold execSimple
+  simp only []
+  (repeat' split) <;> simp_all
+
+theorem opCharge_fetched (sc co gas : Nat) (h1 : sc < 2 ^ 32) (h2 : co < 2 ^ 64) (h3 : gas < 2 ^ 64) :
+    opCharge sc co gas = gas * sc / 1000000 + co := by
+  have hW := W_val
+  have hm : gas * sc < 2 ^ 64 * 2 ^ 32 := Nat.mul_lt_mul'' h3 h1
+  have hd : gas * sc / 1000000 ≤ gas * sc := Nat.div_le_self _ _
+  apply opCharge_exact
+  · generalize gas * sc = p at *; omega
+  · generalize gas * sc / 1000000 = q at *; generalize gas * sc = p at *; omega
+
+theorem beSlice_lt (w frm to : Nat) : beSlice w frm to < 2 ^ (8 * (to - frm)) := by
+  unfold beSlice; exact Nat.mod_lt _ (Nat.two_pow_pos _)
+
+theorem tryFetch_isthmus (s : Slots) (spec : Nat) (h : enabled spec ISTHMUS = true) :
+    (tryFetch s spec).operatorFeeScalar = some (beSlice s.s8 20 24) ∧
+    (tryFetch s spec).operatorFeeConstant = some (beSlice s.s8 24 32) := by
+  have he : enabled spec ECOTONE = true := by
+    unfold enabled ISTHMUS at h; unfold enabled ECOTONE; simp at h ⊢; omega
+  unfold tryFetch
+  simp [he, h]
+
+theorem execSimple_ok (tx : Tx) (st : St) (fr : Frame) (hok : fr.cls = .ok)
+    (hv : tx.value ≤ st.bal tx.caller) (hn : st.nonce + 1 < U64) (ht : tx.target ≠ tx.caller)
+    (hroom : st.bal tx.target + tx.value < W) :
+    (execSimple tx st fr).bal tx.caller = st.bal tx.caller - tx.value := by
+  have h1 : upd st.bal tx.caller (st.bal tx.caller - tx.value) tx.target = st.bal tx.target :=
+    upd_other _ _ _ _ ht
+  have h2 : ¬ st.bal tx.caller < tx.value := by omega
+  have h3 : ¬ st.nonce + 1 ≥ U64 := by omega
+  unfold execSimple
+  by_cases hc : tx.isCreate = true
+  · simp only [hc, if_true, h2, h3, if_false, hok, hv, and_self, h1, hroom, upd_other _ _ _ _ ht.symm, upd_same]
+  · simp only [hc, if_false, hok, hv, and_self, if_true, h1, hroom, upd_other _ _ _ _ ht.symm, upd_same]
+    simp [hc, hok, hv, h1, hroom, upd_other _ _ _ _ ht.symm, upd_same]
+
+/-- the literal sentence for the frames of the harness; see `Props.C33.op_fee_conservation_exact` -/
+theorem conservation_exact_core (tx : Tx) (s : Slots) (pre : St) (fr : Frame) (oi : Option L1Info)
+    (hdep : tx.isDeposit = false) (hlon : enabled tx.spec LONDON = true)
+    (hve : validateEnv tx = none) (hvg : validateInitialGas tx = none)
+    (hvs : validateTxAgainstState tx s pre = .ok oi)
+    (hmint : tx.mint = none) (hblob : dataFee' tx = 0)
+    (hl : tx.gasLimit < U64) (hr : fr.remaining ≤ tx.gasLimit) (hn : pre.nonce + 1 < U64) (hd : FiveDistinct tx)
+    (h0 : tx.target ≠ tx.caller) (h1 : tx.coinbase ≠ tx.target) (h2 : L1_FEE_RECIPIENT ≠ tx.target)
+    (h3 : BASE_FEE_RECIPIENT ≠ tx.target) (h4 : OPERATOR_FEE_RECIPIENT ≠ tx.target)
+    (hsup : pre.bal tx.caller + pre.bal tx.coinbase + pre.bal L1_FEE_RECIPIENT
+              + pre.bal BASE_FEE_RECIPIENT + pre.bal OPERATOR_FEE_RECIPIENT < W)
+    (htgt : pre.bal tx.target + tx.value < W) :
+    ∃ kind used refunded st',
+      transact tx s pre fr = .done kind used refunded st' ∧
+      pre.bal tx.caller =
+        st'.bal tx.caller + (if fr.cls = .ok then tx.value else 0)
+        + (st'.bal tx.coinbase - pre.bal tx.coinbase) + (st'.bal BASE_FEE_RECIPIENT - pre.bal BASE_FEE_RECIPIENT)
+        + (st'.bal L1_FEE_RECIPIENT - pre.bal L1_FEE_RECIPIENT)
+        + (st'.bal OPERATOR_FEE_RECIPIENT - pre.bal OPERATOR_FEE_RECIPIENT) ∧
+      pre.bal tx.coinbase ≤ st'.bal tx.coinbase ∧ pre.bal BASE_FEE_RECIPIENT ≤ st'.bal BASE_FEE_RECIPIENT ∧
+      pre.bal L1_FEE_RECIPIENT ≤ st'.bal L1_FEE_RECIPIENT ∧
+      pre.bal OPERATOR_FEE_RECIPIENT ≤ st'.bal OPERATOR_FEE_RECIPIENT := by
+  have hW : pre.bal tx.caller < W := by omega
+  obtain ⟨info, env, l1, cL, hoi, hv, hl1⟩ := validated_of_ok tx s pre oi hdep hW hvs
+  have hbf := basefee_le_of_validateEnv tx hdep hve
+  have hq := execSimple_quiet tx fr h0 h1 h2 h3 h4 hd
+  have hm0 : tx.mint.getD 0 = 0 := by rw [hmint]; rfl
+  have hdf : dataFee' tx ≤ maxData tx := by rw [hblob]; exact Nat.zero_le _
+  obtain ⟨cU, kind, used, refunded, st', hcU, hrun, hused, c1, c2, c3, c4, c5⟩ :=
+    conservation_core tx pre info env l1 cL (fun st => execSimple tx st fr) fr hdep hlon hv hbf hdf hl hr hd hq
+      (by rw [hm0]; omega)
+  refine ⟨kind, used, refunded, st', ?_, ?_, ?_, ?_, ?_, ?_⟩
+  · unfold transact transactWith
+    simp only [hve, hvg, hvs, hoi]
+    exact hrun
+  · -- value moved by the frame
+    have hdc := deducted_caller tx pre l1 cL
+    have hb := hv.bal
+    have hC : tx.gasLimit * effectiveGasPrice tx ≤ tx.gasLimit * tx.gasPrice :=
+      Nat.mul_le_mul_left _ (egp_le tx)
+    have hmv : (execSimple tx (deducted tx pre l1 cL) fr).bal tx.caller + (if fr.cls = .ok then tx.value else 0) =
+        (deducted tx pre l1 cL).bal tx.caller := by
+      by_cases hok : fr.cls = .ok
+      · simp only [hok, if_true]
+        have hnn : (deducted tx pre l1 cL).nonce + 1 < U64 ∨ True := Or.inr trivial
+        have hvle : tx.value ≤ (deducted tx pre l1 cL).bal tx.caller := by
+          rw [hdc, hm0, hblob]
+          generalize tx.gasLimit * effectiveGasPrice tx = p3 at *
+          generalize tx.gasLimit * tx.gasPrice = p4 at *
+          omega
+        by_cases hcr : tx.isCreate = true
+        · have hnon : (deducted tx pre l1 cL).nonce + 1 < U64 := by
+            unfold deducted; simp only [hcr, if_true]; exact hn
+          rw [execSimple_ok tx _ fr hok hvle hnon h0 (by rw [deducted_other _ _ _ _ _ h0]; exact htgt)]
+          omega
+        · -- a call: `execSimple` does not look at the nonce
+          have hex : (execSimple tx (deducted tx pre l1 cL) fr).bal tx.caller =
+              (deducted tx pre l1 cL).bal tx.caller - tx.value := by
+            have hroom : (deducted tx pre l1 cL).bal tx.target + tx.value < W := by
+              rw [deducted_other _ _ _ _ _ h0]; exact htgt
+            have hu : upd (deducted tx pre l1 cL).bal tx.caller ((deducted tx pre l1 cL).bal tx.caller - tx.value) tx.target
+                = (deducted tx pre l1 cL).bal tx.target := upd_other _ _ _ _ h0
+            unfold execSimple
+            simp [hcr, hok, hvle, hu, hroom, upd_other _ _ _ _ h0.symm, upd_same]
+          rw [hex]; omega
+      · simp only [hok, if_false, Nat.add_zero]
+        rw [execSimple_fail tx _ fr hok]
+    rw [hm0, hblob] at c5
+    rw [c1, c2, c3, c4]
+    generalize (effectiveGasPrice tx - tx.basefee) * used = q1 at *
+    generalize tx.basefee * used = q2 at *
+    generalize (execSimple tx (deducted tx pre l1 cL) fr).bal tx.caller = E at *
+    generalize (deducted tx pre l1 cL).bal tx.caller = D at *
+    generalize (if fr.cls = .ok then tx.value else 0) = mv at *
+    omega
+  · rw [c1]; exact Nat.le_add_right _ _
+  · rw [c2]; exact Nat.le_add_right _ _
+  · rw [c3]; exact Nat.le_add_right _ _
+  · rw [c4]; exact Nat.le_add_right _ _
+
 end Revm.Proofs.OpFees
